@@ -72,11 +72,18 @@ def _worker(args):
     for gi, (name, g, strict) in enumerate(grams):
         ins = gen.inputs_for(rng, g, 5, 14, maxlen)
         lim = n_inputs * 2 if getattr(g, "input_gen", None) is not None else n_inputs
+        refs[gi] = oracle.Ref(g)
         if len(ins) > lim:
-            keep = ins[:1] + rng.sample(ins[1:], lim - 1)
+            # with four or more terminals nearly all short strings are non-sentences: keep up to half of the
+            # budget for sentences, the rest is a sample of everything else (the empty input always)
+            sents = [w for w in ins[1:] if refs[gi].sentence(w)]
+            rng.shuffle(sents)
+            sents = sents[:lim // 2]
+            ss = set(tuple(w) for w in sents)
+            rest = [w for w in ins[1:] if tuple(w) not in ss]
+            keep = ins[:1] + sents + rng.sample(rest, min(len(rest), lim - 1 - len(sents)))
         else:
             keep = ins
-        refs[gi] = oracle.Ref(g)
         for w in keep:
             cases.append((gi, sem.CaseInfo(cid, g, strict, w, sem.ALL_CONFIGS, name)))
             cid += 1
